@@ -40,6 +40,9 @@ def translit_spec(path):
 FN_RE = re.compile(r"^\s*(?:pub(?:\([a-z]+\))?\s+)?(?:open\s+|closed\s+)?(proof fn|fn|spec fn|const fn)\s+(\w+)")
 
 
+IMPL_RE = re.compile(r"^\s*impl(?:<[^{]*?>)?\s+([A-Za-z_][\w:]*)(?:<[^{]*?>)?(?:\s+for\s+([A-Za-z_][\w:]*))?")
+
+
 def function_spans(text):
     """[(name, kind, first_line, last_line)] by brace matching from each fn header."""
     lines = text.split("\n")
@@ -68,6 +71,36 @@ def function_spans(text):
             j += 1
         spans.append((m.group(2), m.group(1), i + 1, j + 1))
         i = j + 1
+    # functions of the same name in different impl blocks (is_duplicate of three packet spaces): qualify the
+    # duplicates with the type of the enclosing impl block so that every obligation has its own name
+    names = [s[0] for s in spans]
+    dup = {n for n in names if names.count(n) > 1}
+    if dup:
+        impls = []   # (type, first_line, last_line)
+        for k, ln in enumerate(lines):
+            mi = IMPL_RE.match(ln)
+            if not mi:
+                continue
+            depth, started, j = 0, False, k
+            while j < len(lines):
+                for ch in lines[j].split("//")[0]:
+                    if ch == "{":
+                        depth += 1
+                        started = True
+                    elif ch == "}":
+                        depth -= 1
+                if started and depth == 0:
+                    break
+                j += 1
+            impls.append((mi.group(2) or mi.group(1), k + 1, j + 1))
+        out = []
+        for (n, kind, a, b) in spans:
+            if n in dup:
+                t = next((t for (t, lo, hi) in impls if lo <= a <= hi), None)
+                if t:
+                    n = "%s::%s" % (t, n)
+            out.append((n, kind, a, b))
+        spans = out
     return spans
 
 
